@@ -65,6 +65,21 @@ class ReadOnlyFrames(Contract):
                 if bad:
                     d["witness"] = {"aliases": bad}; d["confirmed"] = None; d["case"] = f.qual
                 obl.append(d)
+        # C19 / C10: the field decoders are plain functions of their argument: undecorated (a memoising decorator would hand the SAME mutable
+        # CIGAR / list / array to every line that parses an equal string) and without writes to state that outlives the call
+        import ast as _ast
+        PURE_DECORATORS = {"staticmethod", "classmethod"}
+        for f in A.funcs:
+            if f.name in ("decode", "unsafe_decode") and f.path.startswith("gfapy/field/") and f.cls is None:
+                decs = [_ast.unparse(x) for x in f.node.decorator_list]
+                bad_decs = [x for x in decs if x not in PURE_DECORATORS]
+                res = effects.residual(f, ())
+                bad = bool(bad_decs or res)
+                d = dict(name="ReadOnlyFrames/%s::%s:decoder-returns-a-value-of-its-own(no-memo,no-writes)" % (f.path, f.qual), verdict="sat" if bad else "unsat",
+                         backend="effects", seconds=0.0, backends={"effects": ["sat" if bad else "unsat", 0.0]})
+                if bad:
+                    d["witness"] = {"decorators": bad_decs, "writes": res}; d["confirmed"] = None; d["case"] = f.qual
+                obl.append(d)
         return obl
 
 
